@@ -278,7 +278,8 @@ PROPS = {
         "level_text": "spec/MCTypedDocs.tla + TypedTables.tla generate, for control files, copyright files, apt Release/Sources/Packages stanzas, removal records, buildinfo (parse only), DEP-3 headers and APT sources lists: all fields present, mandatory fields only, each optional field absent, every allowed paragraph order, comments and blank runs, and the structurally invalid variants (no / two source paragraphs, a paragraph of neither kind, each mandatory field missing) with the verdict the rules give (checked by TLC against the rule predicate); the harness renders each with canonical values for the declared types and checks acceptance / rejection, print -> parse -> print stability and field-by-field equality of the printed value with the lossless reading of the input.",
         "level_note": "tables are generated from the struct declarations (tools/gen_typed_tables.py); one canonical sample value per field; dropping the field that distinguishes a role reclassifies the paragraph and is not generated as invalid",
         "stages": [{"kind": "tlc_replay", "name": "typed_documents", "module": "MCTypedDocs.tla", "cfg": "MCTypedDocs.cfg", "stage": "typed",
-                    "workers": {"quick": 4, "thorough": 8}, "timeout": {"quick": 300, "thorough": 600}}],
+                    "consts": {"quick": {"NSamples": 3, "Deep": "FALSE"}, "thorough": {"NSamples": 3, "Deep": "TRUE"}},
+                    "workers": {"quick": 4, "thorough": 12}, "timeout": {"quick": 300, "thorough": 3000}}],
         "rule": "every generated document (kind, role sequence, designated paragraph variant, comments, blank run); all distinct",
         "exhaustive": {"quick": True, "thorough": True},
         "assumptions": ["values are canonical for their declared type (as the type's own printer writes them)"],
@@ -303,7 +304,8 @@ PROPS = {
                    dict(REL_STRINGS, name="ep_rel", stage="ep_rel", consts={"quick": {"N": 3, "M": 4}, "thorough": {"N": 4, "M": 6}},
                         henv={"quick": {"VERIF_MAPS": 2, "VERIF_SCALE": "quick"}, "thorough": {"VERIF_MAPS": 3, "VERIF_SCALE": "thorough"}}),
                    {"kind": "tlc_replay", "name": "ep_typed", "module": "MCTypedDocs.tla", "cfg": "MCTypedDocs.cfg", "stage": "ep_typed",
-                    "workers": {"quick": 4, "thorough": 8}, "timeout": {"quick": 300, "thorough": 600}},
+                    "consts": {"quick": {"NSamples": 1, "Deep": "FALSE"}, "thorough": {"NSamples": 3, "Deep": "FALSE"}},
+                    "workers": {"quick": 4, "thorough": 8}, "timeout": {"quick": 300, "thorough": 1200}},
                    {"kind": "tlc_replay", "name": "ep_codecs", "module": "MCCodecs.tla", "cfg": "MCCodecs.cfg", "stage": "ep_codecs",
                     "workers": {"quick": 4, "thorough": 8}, "timeout": {"quick": 300, "thorough": 600}},
                    {"kind": "tlc_replay", "name": "ep_pgp", "module": "MCPgp.tla", "cfg": "MCPgp.cfg", "stage": "ep_pgp",
